@@ -1,7 +1,7 @@
 //! C01 witness search / replay: real `read_http_head` over scripted streams, every 1- and 2-way split,
 //! against an outcome computed from the whole byte stream only.
 use fixed_buffer::FixedBuf;
-use servlin::internal::{read_http_head, HttpError};
+use servlin::internal::{read_http_head, read_http_request, HttpError};
 use verif_replay::{block_on, ScriptReader, Step};
 
 const N: usize = 64; // head buffer size used by the search (the code is generic in it)
@@ -51,6 +51,27 @@ fn check(t: &[u8], cuts: &[usize]) -> Option<String> {
     if got != base { return Some(format!("head bytes={} cuts={cuts:?} expected=same-as-unsplit({base:?}) actual={got:?}", hex(t))); }
     None
 }
+/// two requests on one stream through read_http_request with a 64-byte buffer: both must parse for
+/// every split (the second head gets the whole buffer again)
+fn check_pipelined(first: &[u8], second: &[u8], cut: usize) -> Option<String> {
+    let mut t = first.to_vec(); t.extend_from_slice(second);
+    let desc = format!("pipelined bytes={} cuts=[{cut}]", hex(&t));
+    let steps: Vec<Step> = if cut == 0 || cut >= t.len() { vec![Step::Data(t.clone()), Step::Eof] } else { vec![Step::Data(t[..cut].to_vec()), Step::Data(t[cut..].to_vec()), Step::Eof] };
+    let r = std::panic::catch_unwind(|| {
+        let mut buf: FixedBuf<N> = FixedBuf::new();
+        let mut rd = ScriptReader::new(steps);
+        let addr = std::net::SocketAddr::from(([127, 0, 0, 1], 1));
+        let a = block_on(read_http_request(addr, &mut buf, &mut rd)).map(|r| r.url.path().to_string());
+        let b = block_on(read_http_request(addr, &mut buf, &mut rd)).map(|r| r.url.path().to_string());
+        let c = block_on(read_http_request(addr, &mut buf, &mut rd)).map(|r| r.url.path().to_string());
+        (a, b, c)
+    });
+    match r {
+        Err(_) => Some(format!("{desc} expected=two-requests actual=panic")),
+        Ok((Ok(a), Ok(b), Err(HttpError::Disconnected))) if a == "/a" && b == "/b" => None,
+        Ok(other) => Some(format!("{desc} expected=(/a, /b, Disconnected) actual={other:?}")),
+    }
+}
 fn hex(b: &[u8]) -> String { b.iter().map(|x| format!("{x:02x}")).collect() }
 fn unhex(s: &str) -> Vec<u8> { (0..s.len() / 2).map(|i| u8::from_str_radix(&s[2 * i..2 * i + 2], 16).unwrap()).collect() }
 
@@ -59,6 +80,12 @@ fn main() {
     let args: Vec<String> = std::env::args().collect();
     if args.len() >= 3 && args[1] == "replay" {
         let w = args[2..].join(" ");
+        if w.starts_with("pipelined") {
+            let bytes = unhex(w.split("bytes=").nth(1).unwrap().split(' ').next().unwrap());
+            let cut: usize = w.split("cuts=[").nth(1).unwrap().split(']').next().unwrap().trim().parse().unwrap_or(0);
+            let p = bytes.windows(4).position(|x| x == b"\r\n\r\n").unwrap() + 4;
+            match check_pipelined(&bytes[..p], &bytes[p..], cut) { Some(m) => { println!("WITNESS {m}"); std::process::exit(1) } None => { println!("OK witness no longer fails"); std::process::exit(0) } }
+        }
         let bytes = unhex(w.split("bytes=").nth(1).unwrap().split(' ').next().unwrap());
         let cuts: Vec<usize> = w.split("cuts=[").nth(1).unwrap().split(']').next().unwrap().split(',').filter_map(|s| s.trim().parse().ok()).collect();
         match check(&bytes, &cuts) {
@@ -104,6 +131,17 @@ fn main() {
         for cuts in &cutsets {
             n += 1;
             if let Some(m) = check(t, cuts) { if found.len() < 5 { found.push(m) } }
+        }
+    }
+    for second_len in [20usize, 40, 48, 60, 64] {
+        let first = b"GET /a HTTP/1.1\r\n\r\n".to_vec();
+        let mut second = b"GET /b HTTP/1.1\r\nx: ".to_vec();
+        while second.len() + 4 < second_len { second.push(b'y'); }
+        second.extend_from_slice(b"\r\n\r\n");
+        if second.len() > N { continue; }
+        for cut in 0..(first.len() + second.len()) {
+            n += 1;
+            if let Some(m) = check_pipelined(&first, &second, cut) { if found.len() < 5 { found.push(m) } }
         }
     }
     println!("EVALUATED {n}");
